@@ -250,7 +250,7 @@ Definition judge_free (ti tobs : tree) : tree :=
                 end in
               (* reported only when it fails at BOTH stock-takings (the harness takes two, 300 ms apart) *)
               let failing := flat_map acct_fails stalls in
-              let stall_acct := map (fun id => clause 4 4 [L id])
+              let stall_acct := map (fun id => clause 4 4 [L 0; L id])
                                     (dedup (filter (fun id => 2 <=? Z.of_nat (length (filter (Z.eqb id) failing))) failing)) in
               (* (4,5): buffer_full_events_total ("events that caused blocking because the node's buffer was full",
                  docs/metrics.md) of a node marked discard_on_full_buffer stays 0: no delivery to it ever took the
@@ -258,7 +258,7 @@ Definition judge_free (ti tobs : tree) : tree :=
               let full_clause :=
                 flat_map (fun ix => match snd ix with
                                     | T [_; _; _; _; _; L f] =>
-                                        if ndisc (info nt (fst ix)) && (0 <? f) then [clause 4 5 [L (nid (info nt (fst ix)))]] else []
+                                        if ndisc (info nt (fst ix)) && (0 <? f) then [clause 4 5 [L 0; L (nid (info nt (fst ix)))]] else []
                                     | _ => []
                                     end) (combine (seq 0 (length ctrs)) ctrs) in
               let stall_clause := full_clause ++ (if stall_ok =? 0 then [clause 4 3 []] else []) ++ (if cut <? 0 then [] else stall_acct) in
